@@ -110,6 +110,15 @@ def _build(case):
         def test(self):
             print("stdout of test %d" % i)
             sys.stderr.write("stderr of test %d\n" % i)
+            if i == 0 and case.get("test_sets_trace"):
+                # a well-behaved test that uses a trace function of its own and takes it out again
+                # (it puts back what it found when a hook was installed before the run, else the usual settrace(None))
+                before = sys.gettrace() if case.get("pre", {}).get("trace") else None
+                sys.settrace(_pre_tracer.__class__(_pre_tracer.__code__, globals(), "c18_test_tracer"))
+                try:
+                    len("traced")
+                finally:
+                    sys.settrace(before)
             if i == 0:
                 warnings.warn("c18 deprecation", DeprecationWarning)
                 warnings.simplefilter("ignore")        # a test meddling with the filters
@@ -394,6 +403,12 @@ def _extras():
         for at in (0, 2):
             yield {"opts": _opts(OPTION_NAMES), "ending": ending, "ntests": 3, "at": at,
                    "pre": {"threshold": [701, 11, 9], "debug": 0, "trace": False}}
+    # a test installs a trace function of its own and removes it again (with and without one installed before the run)
+    for ending in ("normal", "KeyboardInterrupt", "failing-tests"):
+        for s in (("coverage",), (), ("coverage", "buffer")):
+            for pre_trace in (False, True):
+                yield {"opts": _opts(s), "ending": ending, "ntests": 3, "at": 1, "test_sets_trace": True,
+                       "pre": {"threshold": [701, 11, 9], "debug": 0, "trace": pre_trace}}
     # a trace function already installed before the run
     for ending in ("normal", "KeyboardInterrupt"):
         for s in ((), ("coverage",), ("profile",), ("coverage", "profile", "buffer")):
@@ -441,7 +456,9 @@ def run(budget_s, seed, tier):
 
     done = True
     n_cat = 0
-    for case in itertools.chain(_catalogue(), _extras()):
+    # the extras (specific histories: hooks installed before the run, a test using a trace function of its own, ...) come
+    # first: they are few; the catalogue of option subsets fills the rest of the budget
+    for case in itertools.chain(_extras(), _catalogue()):
         if time.time() > deadline:
             done = False
             break
